@@ -274,7 +274,7 @@ def v850_ldsr(obj, reg2, reg1):
 @ispec("32<[ 000000100000000 0 reg2(5) 111111 0 cond(4) ]", mnemonic="SASF")
 @ispec("32<[ 000000000000000 0 reg2(5) 111111 0 cond(4) ]", mnemonic="SETF")
 def v850_cccc(obj, reg2, cond):
-    c, dst = cond, env.R[reg2]
+    c, dst = env.cst(cond, 4), env.R[reg2]
     obj.operands = [c, dst]
     obj.type = type_data_processing
 
@@ -312,7 +312,7 @@ def v850_cccc(obj, reg3, cond, reg2, reg1):
     if cond == env.CONDITION_SA and obj.mnemonic in ("ADF", "SBF"):
         raise InstructionError(obj)
     dst, src2, src1 = env.R[reg3], env.R[reg2], env.R[reg1]
-    obj.operands = [cond, src1, src2, dst]
+    obj.operands = [env.cst(cond, 4), src1, src2, dst]
     obj.type = type_data_processing
 
 
@@ -372,7 +372,7 @@ def v850_ext4(obj, reg3, reg2):
 def v850_cccc(obj, reg3, cond, reg2, imm5):
     imm = env.cst(imm5, 5).signextend(32)
     dst, src = env.R[reg3], env.R[reg2]
-    obj.operands = [cond, imm, src, dst]
+    obj.operands = [env.cst(cond, 4), imm, src, dst]
     obj.type = type_data_processing
 
 
